@@ -753,9 +753,18 @@ func checkC14(c *Ctx, n int) {
 			clean := g.genIniText(real, iniProfile{})
 			lines := strings.Split(strings.TrimRight(clean, "\n"), "\n")
 			var noisy []string
+			header := "" // the header of the section the next line belongs to
 			for _, l := range lines {
 				for g.chance(0.4) {
 					noisy = append(noisy, []string{"", "; c", "# c", "   ", "\t"}[c.Rng.Intn(5)])
+				}
+				// the header of the section that is open anyway, once more: the lines before and behind it
+				// still belong to that section
+				if header != "" && g.chance(0.25) {
+					noisy = append(noisy, header)
+				}
+				if t := strings.TrimSpace(l); strings.HasPrefix(t, "[") {
+					header = t
 				}
 				if g.chance(0.5) && l != "" {
 					l = []string{" ", "\t", "  "}[c.Rng.Intn(3)] + l + []string{" ", "\t", "  "}[c.Rng.Intn(3)]
